@@ -181,7 +181,7 @@ func (h *Hist) twinPrepare(sec int64) string {
 }
 
 // twinRun runs the twin scan and compares every group other than t. Returns nil if no comparison was possible.
-func (h *Hist) twinRun(sec int64, frozen time.Time, faults map[int]bool, failDesc map[string]bool, outcomeA string, pre []preLock, mode string) []twinDiff {
+func (h *Hist) twinRun(sec int64, frozen time.Time, faults map[int]bool, failDesc map[string]bool, outcomeA string, pre []preLock, mode string, conflict bool) []twinDiff {
 	tw := h.tw
 	if outcomeA != "ok" {
 		h.tw = nil
@@ -199,6 +199,7 @@ func (h *Hist) twinRun(sec int64, frozen time.Time, faults map[int]bool, failDes
 	for k, v := range failDesc {
 		tw.rec.FailDesc[k] = v
 	}
+	tw.rec.Conflict = conflict
 	outcomeB := protect(func() error { return tw.ctl.RunOnce() })
 	end := time.Now()
 	tw.ctl.VerifQuantise(frozen, frozen)
